@@ -33,7 +33,7 @@ NOT modelled (stated, reached by T2/T3 or outside C06):
   T3 as decimal strings; enums/bools only as recorded probes); explicit routing calls `re.match` on
   the value and raises TypeError for non-strings;
 * `RoutingParameter.sample_request` / `uri_sample` (input of the emitted tests, C13/C14);
-* the ads templates' copy of `create_metadata` (same macro text; covered by a T3 stream only);
+* the ads templates call the same `create_metadata` macro (since e7125a7); covered by a T3 stream, same model;
 * `routing_header.to_grpc_metadata`'s lru_cache and the REST transport's `dict(metadata)` (a
   duplicate header key would collapse; never produced by one `create_metadata`).
 No Mathlib.
